@@ -62,7 +62,8 @@ CONFIG = {
                  "riog_suffix_sub_validator", "ttl_bnode_disambiguated_sub_validator",
                  "glue_run_terminates", "glue_run_no_panic", "glue_run_faithful",
                  "specOf_contract", "spec_contract", "spec_contract_full_refuted", "wiring_as_modelled",
-                 "jsonld_bnode_pred_sub_validator_refuted", "jsonld_bnode_pred_sub_validator_partial"],
+                 "jsonld_bnode_pred_sub_validator_refuted", "jsonld_bnode_pred_sub_validator_partial",
+                 "jsonld_rejects_invalid_bnode_labels"],
     "native_ok": ["rio_bnode_sub_validator", "rio_var_sub_validator", "rio_lang_sub_validator",
                   "jsonld_bnode_sub_validator", "base_unwrap_safe", "oxiri_abs_sub_validator",
                   "oxiri_ref_sub_validator", "xml_nodeid_sub_validator_partial",
@@ -96,6 +97,9 @@ CONFIG = {
             "1/4 of insertions also with a configured base (4 shapes); every document is parsed twice, from the slice and through a "
             "BufReader of 1..7 bytes; the 5 JSON-LD seeds and 120 sampled mutants each under 9 option sets (rdf_direction x2, "
             "produce_generalized_rdf, ordered, base, expand context, processing mode 1.0, strict / relaxed expansion policy). "
+            "errmsg (exploration): INVALID documents whose error message embeds long non-ASCII user data (55 JSON-LD templates under 6 "
+            "option sets, 23 Rio / RDF-XML templates; payloads of 2-, 3-, 4-byte characters after 0..3 ASCII characters at byte lengths "
+            "around 64 .. 4096): a returned error is fine, a panic on the error path is not; the error's Display is rendered too. "
             "deep/long (exploration, child process with a wall-clock allowance; OOM / external kill / timeout = inconclusive, not a "
             "failure): nesting of quoted triples, collections, property lists, XML elements, JSON arrays/objects/@list/@graph at depths "
             "16, 10^3 (quick) .. 10^5 (thorough); tokens / statement counts of 10^5 (10^6 thorough). Every yielded term: all accessors, "
@@ -635,24 +639,6 @@ def c08_jsonld_base_dotdot_overflow(failure):
     text = d[1]
     m = re.search(r'"@base"\s*:\s*"([^"]*)"', text)
     return m is not None and _ROOTLESS.match(m.group(1)) is not None and ".." in text
-
-
-@predicate
-def c08_jsonld_generalized_bnode_predicate(failure):
-    """JSON-LD with produce_generalized_rdf: a blank node identifier used as property keeps the label of the document
-    (properties are not relabelled); rdf_types::BlankId allows ':' in it, BnodeId::new does not"""
-    if _field(failure) not in (("FAIL.accessor_panic", "bnode_id"), ("FAIL.invalid_term", "bnode"), ("FAIL.invalid_term", "bnode_p")):
-        return False
-    if not _all_bad(failure, "b", lambda s: ":" in s):
-        return False
-    x = _tok(failure)
-    if x:
-        return x[0] == "jsonld@gen" and x[1] == "bnode_p" and ":" in x[2]
-    d = _doc(failure)
-    if d:
-        # some JSON string is a blank node identifier with a second ':' (a property key, or a term definition's @id)
-        return d[0] == "jsonld@gen" and re.search(r'"_:[^"]*:[^"]*"', d[1]) is not None
-    return False
 
 
 def _deep(failure):
